@@ -1,5 +1,9 @@
 import HappyProofs.C18.ScalarInst
 import HappyProofs.C18.SameUpdates
+import HappyProofs.C18.StoreRefine
+import HappyProofs.C18.Exchange
+import HappyProofs.C18.StoreDeliver
+import HappyProofs.C18.KClock
 import HappyModel.C18.Spec
 /-!
 # C18 — property theorems
@@ -92,6 +96,47 @@ theorem vector_strict_iff_hb (es : List Ev) (a b : Rec)
       have l1 := (inv.idLog b hb).2 a.id h1
       have l2 := (inv.idLog a ha).2 b.id hba
       exact absurd (Nat.le_antisymm l1 l2) h2
+
+/-! ### vector clocks as dicts with arbitrary (partial, growing) key sets -/
+
+theorem LogSim.get {ks : List KVec} {rs : List Rec} (h : LogSim ks rs) (i : Nat) (k : KVec) (r : Rec)
+    (hk : ks[i]? = some k) (hr : rs[i]? = some r) : VEq k r.V := by
+  induction h generalizing i with
+  | nil => simp at hk
+  | cons hv _ ih =>
+    cases i with
+    | zero => simp at hk hr; subst hk hr; exact hv
+    | succ i => simp at hk hr; exact ih i hk hr
+
+/-- the code's `happened_before` walks the union of the two key sets and reads absent entries
+    as 0: it is the componentwise order, whatever the key sets are -/
+theorem kvec_happened_before_spec (a b : KVec) :
+    a.happenedBefore b = true ↔ (∀ k, a.get k ≤ b.get k) ∧ (∃ k, a.get k < b.get k) :=
+  KVec.happenedBefore_iff a b
+
+/-- for every membership assignment (each node constructed with any list of node ids) and every
+    history, the dict clocks have the same entries as the dense vectors of `run` … -/
+theorem keyed_clock_refines_vector (mem : Nat → List Nat) (es : List Ev) (n i : Nat) :
+    ((krun (KSt.init mem) es).vc n).get i = Vec.get ((run {} es).vc n) i :=
+  (ksim_run es _ _ (ksim_init mem)).vc n i
+
+/-- … and their `happened_before` orders two logged events exactly when one happened before the other -/
+theorem keyed_vector_strict_iff_hb (mem : Nat → List Nat) (es : List Ev) (i j : Nat)
+    (ka kb : KVec) (a b : Rec)
+    (hka : (krun (KSt.init mem) es).log[i]? = some ka) (ha : (run {} es).log[i]? = some a)
+    (hkb : (krun (KSt.init mem) es).log[j]? = some kb) (hb : (run {} es).log[j]? = some b) :
+    ka.happenedBefore kb = true ↔ HB a b := by
+  have sim := (ksim_run es _ _ (ksim_init mem)).log
+  rw [KVec.happenedBefore_eq_dense ka kb a.V b.V (sim.get i ka a hka ha) (sim.get j kb b hkb hb)]
+  exact vector_strict_iff_hb es a b (List.mem_of_getElem? ha) (List.mem_of_getElem? hb)
+
+/-- non-vacuity: nodes that know only themselves; the send {0:1} and its receive {1:2, 0:1} have
+    different key sets and are ordered; the earlier local event of node 1 is concurrent to the send -/
+example :
+    let k := krun (KSt.init fun n => [n]) [.loc 1 0, .send 0 0 5, .recv 1 0 2]
+    k.log = [[(1, 2), (0, 1)], [(0, 1)], [(1, 1)]] ∧
+    KVec.happenedBefore [(0, 1)] [(1, 2), (0, 1)] = true ∧
+    KVec.concurrent [(0, 1)] [(1, 1)] = true := by decide
 
 /-! ### CRDT merge laws -/
 
@@ -239,6 +284,209 @@ example :
     let ops := [COp.lset 0 10 3 0 0, .lset 1 20 3 0 0, .merge 0 1, .merge 1 0]
     SameSet ((SpecSys.run {} ops).know 0) ((SpecSys.run {} ops).know 1) ∧
     ((Sys.run Sys.init ops).rep 0).lww.cur ≠ ((Sys.run Sys.init ops).rep 1).lww.cur := by decide
+
+/-! ### CRDTStore replicas (gossip of serialised state)
+
+The store model (`HappyModel/C18/Store.lean`, variant `repaired`) keeps one replica system per key:
+entity `s < n` is store `s`'s CRDT for the key, entity `n + m` is the serialised copy inside gossip
+message `m`.  `store_refines_replicas` shows that, for every script of client writes, gossip ticks
+and deliveries (any order, duplication, loss), this *is* a run of the replica system above over the
+operations `storeOps … k`; so every store — and every message in flight — has the specified value
+of the updates it has received, and stores that have received the same updates agree. -/
+
+/-- the replica operations of key `k` in a store run -/
+def storeOps (kind : Kind) (n : Nat) (peers : List (List Nat)) (steps : List SStep) (k : Nat) :
+    List COp :=
+  keyOps k (PSt.ops .repaired kind { n := n, peers := peers } steps)
+
+/-- the CRDT of key `k` at entity `e` (store `e < n`, message `e - n`) after a store run -/
+def storeRep (kind : Kind) (n : Nat) (peers : List (List Nat)) (steps : List SStep) (e k : Nat) :
+    Rep :=
+  ((sysAt (SSt.run .repaired kind (SSt.init n peers) steps).sys k).rep e)
+
+theorem store_refines_replicas (kind : Kind) (n : Nat) (peers : List (List Nat))
+    (steps : List SStep) (e k : Nat) :
+    storeRep kind n peers steps e k = (Sys.run Sys.init (storeOps kind n peers steps k)).rep e := by
+  unfold storeRep storeOps
+  rw [sysAt_run, runX_base _ _ _ (ops_base kind _ steps)]
+  simp [SSt.init, sysAt_nil]
+
+/-- store counters: value = received increments − received decrements -/
+theorem store_counter_value_spec (kind : Kind) (n : Nat) (peers : List (List Nat))
+    (steps : List SStep) (e k : Nat) :
+    (storeRep kind n peers steps e k).pn.value =
+      (SpecSys.run {} (storeOps kind n peers steps k)).counter e := by
+  rw [store_refines_replicas]; exact counter_value_spec _ e
+
+/-- store OR-sets: x is present exactly when a received add of x is not observed by a received remove -/
+theorem store_orset_spec (kind : Kind) (n : Nat) (peers : List (List Nat))
+    (steps : List SStep) (e k x : Nat) :
+    (storeRep kind n peers steps e k).os.has x =
+      (SpecSys.run {} (storeOps kind n peers steps k)).orHas e x := by
+  rw [store_refines_replicas]; exact orset_spec _ e x
+
+/-- store registers hold a received write that no received write beats -/
+theorem store_lww_spec (kind : Kind) (n : Nat) (peers : List (List Nat))
+    (steps : List SStep) (e k : Nat) :
+    (SpecSys.run {} (storeOps kind n peers steps k)).lwwOk e (storeRep kind n peers steps e k).lww.cur
+      = true := by
+  rw [store_refines_replicas]; exact lww_spec _ e
+
+/-- stores that have received the same updates of a key report the same value for it -/
+theorem store_same_updates_equal_values (kind : Kind) (n : Nat) (peers : List (List Nat))
+    (steps : List SStep) (e1 e2 k : Nat)
+    (h : SameSet ((SpecSys.run {} (storeOps kind n peers steps k)).know e1)
+                 ((SpecSys.run {} (storeOps kind n peers steps k)).know e2)) :
+    (storeRep kind n peers steps e1 k).pn.value = (storeRep kind n peers steps e2 k).pn.value ∧
+    (∀ x, (storeRep kind n peers steps e1 k).os.has x = (storeRep kind n peers steps e2 k).os.has x) ∧
+    (OpsCoherent (storeOps kind n peers steps k) →
+      (storeRep kind n peers steps e1 k).lww.cur = (storeRep kind n peers steps e2 k).lww.cur) := by
+  rw [store_refines_replicas, store_refines_replicas]
+  exact same_updates_equal_values _ e1 e2 h
+
+/-- non-vacuity: two stores write the same key concurrently, one of them adopts it from the other's
+    push first; after a push / response exchange both have received all three updates (in a different
+    order) and read 10 -/
+example :
+    let steps := [SStep.w 0 0 (.inc 5), .tick 0 0, .dl 0, .w 1 0 (.inc 3), .w 0 0 (.inc 2),
+      .tick 1 0, .dl 2, .dl 3]
+    let t := SpecSys.run {} (storeOps .pn 2 [[1], [0]] steps 0)
+    storeOps .pn 2 [[1], [0]] steps 0 =
+      [.inc 0 5, .merge 2 0, .merge 1 2, .merge 3 1, .inc 1 3, .inc 0 2, .merge 4 1, .merge 0 4,
+       .merge 5 0, .merge 1 5] ∧
+    SameSet (t.know 0) (t.know 1) ∧ t.know 0 ≠ t.know 1 ∧ SameSet (t.know 0) (t.know 5) ∧
+    (storeRep .pn 2 [[1], [0]] steps 0 0).pn.value = 10 := by decide
+
+/-- the code before `fixes/C18-store-adopts-remote-node-id.diff` (variant `current`): the adopted
+    counter keeps the sender's node id, store 1's increment lands in store 0's slot and is lost —
+    both stores read 8 although increments − decrements = 10 -/
+theorem store_adoption_current_loses_increment :
+    let steps := [SStep.w 0 0 (.inc 5), .tick 0 0, .dl 0, .w 1 0 (.inc 3), .w 0 0 (.inc 2),
+      .tick 1 0, .dl 2, .dl 3]
+    let cur := SSt.run .current .pn (SSt.init 2 [[1], [0]]) steps
+    ((sysAt cur.sys 0).rep 0).pn.value = 8 ∧ ((sysAt cur.sys 0).rep 1).pn.value = 8 ∧
+    (SpecSys.run {} (storeOps .pn 2 [[1], [0]] steps 0)).counter 0 = 10 ∧
+    (storeRep .pn 2 [[1], [0]] steps 0 0).pn.value = 10 := by decide
+
+/-! #### store merge = per-key CRDT merge, adoption = merge into the empty CRDT -/
+
+/-- extensional equality of one key's CRDT -/
+def Rep.Equiv (a b : Rep) : Prop := a.pn = b.pn ∧ a.lww = b.lww ∧ a.os.Equiv b.os
+
+/-- what a delivery does to a key of the receiving store -/
+theorem sys_merge_is_rep_merge (s : Sys) (d sr : Nat) :
+    (s.step (.merge d sr)).rep d = Rep.merge (s.rep d) (s.rep sr) := by
+  simp [Sys.step, Sys.set, Rep.merge]
+
+theorem rep_merge_comm (a b : Rep) (h : LWW.Coherent a.lww b.lww) :
+    (Rep.merge a b).Equiv (Rep.merge b a) :=
+  ⟨pn_merge_comm _ _, lww_merge_comm _ _ h, orset_merge_comm _ _⟩
+
+theorem rep_merge_assoc (a b c : Rep) :
+    (Rep.merge (Rep.merge a b) c).Equiv (Rep.merge a (Rep.merge b c)) :=
+  ⟨pn_merge_assoc _ _ _, lww_merge_assoc _ _ _, orset_merge_assoc _ _ _⟩
+
+theorem rep_merge_idem (a : Rep) (h : a.os.WF) : (Rep.merge a a).Equiv a :=
+  ⟨pn_merge_idem _, lww_merge_idem _, orset_merge_idem _ h⟩
+
+/-- adoption (repaired): a key the store does not hold becomes the empty CRDT of the store merged
+    with the remote state — the remote value, under the store's own identity (`seq = 0`: the
+    store has issued no tag of its own yet) -/
+theorem rep_adopt (r : Rep) (h : r.os.WF) :
+    (Rep.merge {} r).Equiv r ∧ (Rep.merge {} r).os.seq = 0 := by
+  refine ⟨⟨?_, ?_, ?_, ?_⟩, rfl⟩
+  · simp [Rep.merge, PN.merge]
+  · cases r with
+    | mk pn lww os =>
+      cases lww with
+      | mk cur =>
+        cases cur with
+        | none => rfl
+        | some tv => obtain ⟨t, v⟩ := tv; simp [Rep.merge, LWW.merge, LWW.set]
+  · intro e
+    simp only [Rep.merge, ORSet.mem_merge_ents]
+    constructor
+    · rintro ⟨h1 | h1, _⟩
+      · simp at h1
+      · exact h1
+    · intro h1
+      exact ⟨Or.inr h1, by simp, h e h1⟩
+  · intro t
+    simp [Rep.merge, ORSet.mem_merge_tomb]
+
+example :
+    let r : Rep := ⟨⟨[2, 1], [0, 1]⟩, ⟨some (⟨3, 0, 1⟩, 7)⟩, ⟨2, [(5, ⟨1, 0⟩)], [⟨1, 1⟩]⟩⟩
+    r.os.WF ∧ Rep.merge {} r = ⟨r.pn, r.lww, ⟨0, r.os.ents, r.os.tomb⟩⟩ := by decide
+
+/-- store merge = per-key CRDT merge with adoption: delivering message `m` (a push or a response,
+    for the first time or again) changes the receiving store's CRDT of every key in the message to
+    `Rep.merge local (copy in the message)` — the local value of a key the store does not hold yet
+    is the empty CRDT — and leaves its other keys alone. (The message lists each key once and is
+    addressed to a store: true of every message the protocol builds.) -/
+theorem store_deliver_is_keywise_merge (kind : Kind) (st : SSt) (m : Nat) (msg : Msg)
+    (hm : st.p.msgs[m]? = some msg) (k : Nat)
+    (hnd : (msg.keys.map (·.1)).Nodup) (hd : msg.dst < st.p.n) :
+    (sysAt (st.step .repaired kind (.dl m)).sys k).rep msg.dst =
+      if k ∈ msg.keys.map (·.1) then
+        Rep.merge ((sysAt st.sys k).rep msg.dst) ((sysAt st.sys k).rep (st.p.n + m))
+      else (sysAt st.sys k).rep msg.dst :=
+  store_deliver_keywise_aux kind st m msg hm k hnd hd
+
+/-- non-vacuity: a push with two keys, one of them new to the receiver, which holds a third key -/
+example :
+    let st := SSt.run .repaired .pn (SSt.init 2 [[1], [0]])
+      [.w 0 0 (.inc 5), .w 0 1 (.dec 2), .w 1 0 (.inc 1), .w 1 2 (.inc 4), .tick 0 0]
+    st.p.msgs[0]? = some ⟨0, 1, true, [(0, 0), (1, 0)]⟩ ∧ st.p.holds 1 1 = false ∧
+    ((sysAt (st.step .repaired .pn (.dl 0)).sys 1).rep 1).pn.value = -2 ∧
+    ((sysAt (st.step .repaired .pn (.dl 0)).sys 0).rep 1).pn.value = 6 ∧
+    ((sysAt (st.step .repaired .pn (.dl 0)).sys 2).rep 1).pn.value = 4 := by decide
+
+/-! #### convergence after exchanging states, any order, any duplication -/
+
+/-- after any operations, let the replicas of a group `R` exchange states (list `ex` of merges
+    `(dst, src)`, no updates in between) such that members merge only from members and every
+    member's state reaches every member (`reach`): directly or through other members — e.g. the
+    gossip messages in flight — in any order, with any repetition and any additional merges. Then
+    all members have received the same updates and are equal. -/
+theorem exchange_all_converges (ops : List COp) (R : List Nat) (ex : List (Nat × Nat))
+    (closed : ∀ e ∈ ex, e.1 ∈ R → e.2 ∈ R)
+    (full : ∀ a ∈ R, ∀ b ∈ R, b ∈ reach ex [a]) (a b : Nat) (ha : a ∈ R) (hb : b ∈ R) :
+    let s := Sys.run Sys.init (ops ++ merges ex)
+    (s.rep a).pn.value = (s.rep b).pn.value ∧ (∀ x, (s.rep a).os.has x = (s.rep b).os.has x) ∧
+    (OpsCoherent (ops ++ merges ex) → (s.rep a).lww.cur = (s.rep b).lww.cur) := by
+  apply same_updates_equal_values
+  rw [SpecSys.run_append]
+  exact exchange_same_knowledge _ R ex closed full a ha b hb
+
+/-- the same for stores: if the replica operations of key `k` end in an exchange (gossip ticks and
+    deliveries emit merges only) that is full for a group of stores and messages, the stores of
+    the group agree on the key -/
+theorem store_exchange_converges (kind : Kind) (n : Nat) (peers : List (List Nat))
+    (steps : List SStep) (k : Nat) (ops : List COp) (R : List Nat) (ex : List (Nat × Nat))
+    (hsplit : storeOps kind n peers steps k = ops ++ merges ex)
+    (closed : ∀ e ∈ ex, e.1 ∈ R → e.2 ∈ R)
+    (full : ∀ a ∈ R, ∀ b ∈ R, b ∈ reach ex [a]) (a b : Nat) (ha : a ∈ R) (hb : b ∈ R) :
+    (storeRep kind n peers steps a k).pn.value = (storeRep kind n peers steps b k).pn.value ∧
+    (∀ x, (storeRep kind n peers steps a k).os.has x = (storeRep kind n peers steps b k).os.has x) ∧
+    (OpsCoherent (ops ++ merges ex) →
+      (storeRep kind n peers steps a k).lww.cur = (storeRep kind n peers steps b k).lww.cur) := by
+  rw [store_refines_replicas, store_refines_replicas, hsplit]
+  exact exchange_all_converges ops R ex closed full a b ha hb
+
+/-- non-vacuity: three stores write, then gossip in a ring with one duplicate delivery and one lost
+    response; replicas 0–2 are the stores, 3… the messages; every store's state reaches every store -/
+example :
+    let steps := [SStep.w 0 0 (.add 1), .w 1 0 (.add 2), .w 2 0 (.rem 2), .w 2 0 (.add 3),
+      .tick 0 0, .dl 0, .tick 1 1, .dl 2, .dl 2, .tick 2 0, .dl 5, .dl 6, .tick 0 1, .dl 7, .dl 8,
+      .tick 1 0, .dl 9, .tick 2 1, .dl 11]
+    let peers := [[1, 2], [0, 2], [0, 1]]
+    let ex := [(3, 0), (1, 3), (4, 1), (5, 1), (2, 5), (6, 2), (2, 5), (7, 2), (8, 2), (0, 8),
+      (9, 0), (2, 9), (10, 0), (2, 10), (11, 2), (0, 11), (12, 1), (0, 12), (13, 0), (14, 2), (1, 14),
+      (15, 1)]
+    let R := List.range 16
+    storeOps .os 3 peers steps 0 = [.oadd 0 1, .oadd 1 2, .orem 2 2, .oadd 2 3] ++ merges ex ∧
+    (∀ e ∈ ex, e.1 ∈ R → e.2 ∈ R) ∧ (∀ a ∈ [0, 1, 2], ∀ b ∈ [0, 1, 2], b ∈ reach ex [a]) ∧
+    (storeRep .os 3 peers steps 0 0).os.has 2 = true := by decide
 
 /-- non-vacuity: a concrete history with a receive has related and unrelated pairs -/
 example :
